@@ -33,7 +33,7 @@ import (
 const (
 	c08Chunk      = 8 << 10 // bytes per upload / download chunk
 	c08Bound      = 2 * time.Second
-	c08HardLimit  = 20 * time.Second // a run that takes longer is reported, never waited for
+	c08HardLimit  = 10 * time.Second // a run that takes longer is reported, never waited for
 	c08FloodCount = 256              // chunks the upload source would supply after the injection (2 MiB)
 )
 
